@@ -636,14 +636,15 @@ theorem continueAfter_eff (g : Graph) (hwf : graphWF g = true) (w n : Nat) (ph :
 
 /-- what the test stub did at the end of the task: nothing, or one record appended to the job results -/
 def RepEff (s : State) (name uid : String) (wait : Nat) (out : Outcome) (sa : State) : Prop :=
-  sa = s ∨ (wait = 0 ∧ ∃ st, out.status = some st ∧ SameBook s sa ∧ sa.jobResults = s.jobResults ++ [(name, uid, st, out.dur)])
+  (sa = s ∧ (wait ≠ 0 ∨ out.status = none)) ∨ (wait = 0 ∧ ∃ st, out.status = some st ∧ SameBook s sa ∧ sa.jobResults = s.jobResults ++ [(name, uid, st, out.dur)])
 
 /-- shape of `resumeTest` -/
 def TestEff (g : Graph) (s : State) (w n : Nat) (ph : Phase) (dir : Dir) (uid : String) (tag wait : Nat) (out : Outcome)
     (s' : State) : Prop :=
   ∃ sa, RepEff s (if ph = .pre then (s.wd w).preName else (g.node n).name) uid wait out sa ∧
     ((∃ e, sa.jobResults.find? (fun r => r.1 == (if ph = .pre then (s.wd w).preName else (g.node n).name) && r.2.1 == uid) = some e ∧
-        ∃ sb res ok, SameBook sa sb ∧ keys sb = keys sa ∧ res.tag = 0 ∧
+        ∃ sb res ok, SameBook sa sb ∧ keys sb = keys sa ∧
+          (res.tag = 0 ∧ res.uid = uid ∧ res.dur = e.2.2.2 ∧ (res.status = e.2.2.1 ∨ (e.2.2.1 = "PASS" ∧ res.status = "WARN"))) ∧
           ContEff g w n ph dir (if ph = .pre then settlePre sb w res tag else settleNd sb n res tag) ok s') ∨
      (sa.jobResults.find? (fun r => r.1 == (if ph = .pre then (s.wd w).preName else (g.node n).name) && r.2.1 == uid) = none ∧
         (s' = sa.setWd w (fun d => { d with pc := .test n ph dir uid tag (wait + 1) }) ∨ ContEff g w n ph dir sa false s')))
@@ -680,7 +681,7 @@ theorem resumeTest_eff (g : Graph) (hwf : graphWF g = true) (s : State) (w n : N
     · cases hst : out.status with
       | none =>
         simp only [hw0, hst, BEq.rfl, if_true, Prod.mk.injEq] at heq
-        exact Or.inl heq.1.symm
+        exact Or.inl ⟨heq.1.symm, Or.inr hst⟩
       | some st =>
         simp only [hw0, hst, BEq.rfl, if_true, Prod.mk.injEq] at heq
         right
@@ -691,9 +692,9 @@ theorem resumeTest_eff (g : Graph) (hwf : graphWF g = true) (s : State) (w n : N
         · exact ⟨⟨rfl, rfl, rfl⟩, rfl⟩
     · have : ¬ (wait == 0) = true := by simpa using hw0
       simp only [this, Bool.false_eq_true, if_false, Prod.mk.injEq] at heq
-      exact Or.inl heq.1.symm
+      exact Or.inl ⟨heq.1.symm, Or.inl hw0⟩
   have hsaw : sa.workers = s.workers := by
-    rcases hrep with h | ⟨_, _, _, h, _⟩
+    rcases hrep with ⟨h, _⟩ | ⟨_, _, _, h, _⟩
     · rw [h]
     · exact h.2.1
   have hsawd : sa.wd w = s.wd w := by unfold State.wd; rw [hsaw]
@@ -706,7 +707,7 @@ theorem resumeTest_eff (g : Graph) (hwf : graphWF g = true) (s : State) (w n : N
     refine ⟨_, rfl, ?_⟩
     dsimp -zeta only
     extract_lets prior maxAllowed maxAllowed2 st sb res sc ok
-    refine ⟨sb, res, ok, ?_, ?_, rfl, ?_⟩
+    refine ⟨sb, res, ok, ?_, ?_, ⟨rfl, rfl, rfl, ?_⟩, ?_⟩
     · show SameBook sa (if (st != st0) = true then _ else sa)
       split
       · exact ⟨rfl, rfl, rfl⟩
@@ -715,6 +716,13 @@ theorem resumeTest_eff (g : Graph) (hwf : graphWF g = true) (s : State) (w n : N
       split
       · exact keys_map_same _ _ _
       · rfl
+    · show (if (st0 == "PASS" && decide (4 * dur > 5 * maxAllowed2)) = true then "WARN" else st0) = st0 ∨
+        (st0 = "PASS" ∧ (if (st0 == "PASS" && decide (4 * dur > 5 * maxAllowed2)) = true then "WARN" else st0) = "WARN")
+      split
+      · rename_i hc
+        rw [Bool.and_eq_true, beq_iff_eq] at hc
+        exact Or.inr ⟨hc.1, rfl⟩
+      · exact Or.inl rfl
     · have hsbw : sb.workers = sa.workers := by
         show (if (st != st0) = true then _ else sa).workers = sa.workers
         split <;> rfl
@@ -1213,13 +1221,13 @@ theorem Basic.step {g : Graph} (hwf : graphWF g = true) {s : State} (b : Basic g
     · exact b.silent a
     · exact ((b.silent a).mono (fun _ _ => trivial)).startFrom hs hw
   · have hsb : SameBook s sa := by
-      rcases hrep with h | ⟨_, _, _, h, _⟩
+      rcases hrep with ⟨h, _⟩ | ⟨_, _, _, h, _⟩
       · rw [h]; exact ⟨rfl, rfl, rfl⟩
       · exact h
     have ba : Basic g sa All := b.sameBook hsb
     have hpca : (sa.wd w).pc = .test n ph dir uid tag wait := by rw [hsb.wd]; exact hpc
     have hok := b.pcOK w n ph dir uid tag wait trivial hpc
-    rcases h with ⟨e, _, sb, res, ok, hsab, _, hres, hc⟩ | ⟨_, h | hc⟩
+    rcases h with ⟨e, _, sb, res, ok, hsab, _, ⟨hres, _⟩, hc⟩ | ⟨_, h | hc⟩
     · have bb : Basic g sb All := ba.sameBook hsab
       have hpcb : (sb.wd w).pc = .test n ph dir uid tag wait := by rw [hsab.wd]; exact hpca
       refine Basic.cont (sc := if ph = .pre then I2N.Trav.settlePre sb w res tag else settleNd sb n res tag) ?_ hc hok.1 hw hok.2.2.2.1
@@ -1829,7 +1837,7 @@ theorem Uids.cont {g : Graph} {sc s' : State} {w n : Nat} {ph : Phase} {dir : Di
 /-- a step in which the awaited result was not found did not report it -/
 theorem repEff_none {s sa : State} {name uid : String} {wait : Nat} {out : Outcome} (hrep : RepEff s name uid wait out sa)
     (hnone : sa.jobResults.find? (fun r => r.1 == name && r.2.1 == uid) = none) : sa = s := by
-  rcases hrep with h | ⟨_, st, _, _, hj⟩
+  rcases hrep with ⟨h, _⟩ | ⟨_, st, _, _, hj⟩
   · exact h
   · exfalso
     rw [hj] at hnone
@@ -1845,17 +1853,17 @@ theorem Uids.step {g : Graph} (hwf : graphWF g = true) (hN : NamesInj g) (hP : P
     · exact u.silent a
     · exact ((u.silent a).mono (fun _ _ => trivial)).startFrom ((b.silent a).mono (fun _ _ => trivial)) hN hs hw
   · have hsb : SameBook s sa := by
-      rcases hrep with h | ⟨_, _, _, h, _⟩
+      rcases hrep with ⟨h, _⟩ | ⟨_, _, _, h, _⟩
       · rw [h]; exact ⟨rfl, rfl, rfl⟩
       · exact h
     have ba : Basic g sa All := b.sameBook hsb
     have hpca : (sa.wd w).pc = .test n ph dir uid tag wait := by rw [hsb.wd]; exact hpc
     have hok := b.pcOK w n ph dir uid tag wait trivial hpc
     have ua : Uids g sa (Ex w) := by
-      rcases hrep with h | ⟨_, st, _, hsb', hj⟩
+      rcases hrep with ⟨h, _⟩ | ⟨_, st, _, hsb', hj⟩
       · rw [h]; exact u.mono (fun _ _ => trivial)
       · exact u.report b hN hP hpc hsb' (by unfold keys; rw [hj]; simp)
-    rcases h with ⟨e, _, sb, res, ok, hsab, hkeys, hres, hc⟩ | ⟨hnone, h | hc⟩
+    rcases h with ⟨e, _, sb, res, ok, hsab, hkeys, ⟨hres, _⟩, hc⟩ | ⟨hnone, h | hc⟩
     · have bb : Basic g sb All := ba.sameBook hsab
       have ub : Uids g sb (Ex w) := ua.sameKeys hsab hkeys
       have hpcb : (sb.wd w).pc = .test n ph dir uid tag wait := by rw [hsab.wd]; exact hpca
@@ -2095,14 +2103,14 @@ theorem Budget.step {g : Graph} (hwf : graphWF g = true) {s : State} (b : Basic 
     · exact j.silent a
     · exact (j.silent a).startFrom ((b.silent a).mono (fun _ _ => trivial)) hs
   · have hsb : SameBook s sa := by
-      rcases hrep with h | ⟨_, _, _, h, _⟩
+      rcases hrep with ⟨h, _⟩ | ⟨_, _, _, h, _⟩
       · rw [h]; exact ⟨rfl, rfl, rfl⟩
       · exact h
     have ba : Basic g sa All := b.sameBook hsb
     have ja : Budget g sa := j.sameBook hsb
     have hpca : (sa.wd w).pc = .test n ph dir uid tag wait := by rw [hsb.wd]; exact hpc
     have hok := b.pcOK w n ph dir uid tag wait trivial hpc
-    rcases h with ⟨e, _, sb, res, ok, hsab, _, hres, hc⟩ | ⟨_, h | hc⟩
+    rcases h with ⟨e, _, sb, res, ok, hsab, _, ⟨hres, _⟩, hc⟩ | ⟨_, h | hc⟩
     · have bb : Basic g sb All := ba.sameBook hsab
       have jb : Budget g sb := ja.sameBook hsab
       have hpcb : (sb.wd w).pc = .test n ph dir uid tag wait := by rw [hsab.wd]; exact hpca
@@ -2205,10 +2213,10 @@ theorem resume_results_sublist (g : Graph) (hwf : graphWF g = true) (s : State) 
       · exact a.ext.trans hs.ext
     exact List.filter_sublist.trans (he m).sublist
   · have hsb : SameBook s sa := by
-      rcases hrep with h | ⟨_, _, _, h, _⟩
+      rcases hrep with ⟨h, _⟩ | ⟨_, _, _, h, _⟩
       · rw [h]; exact ⟨rfl, rfl, rfl⟩
       · exact h
-    rcases h with ⟨e, _, sb, res, ok, hsab, _, hres, hc⟩ | ⟨_, h | hc⟩
+    rcases h with ⟨e, _, sb, res, ok, hsab, _, ⟨hres, _⟩, hc⟩ | ⟨_, h | hc⟩
     · refine List.Sublist.trans ?_ (hc.ext m).sublist
       have hnd : sb.nd m = s.nd m := by rw [hsab.nd, hsb.nd]
       by_cases hp : ph = .pre
@@ -2246,10 +2254,10 @@ theorem resume_results_prefix (g : Graph) (hwf : graphWF g = true) (s : State) (
     · exact a.ext m
     · exact (a.ext.trans hs.ext) m
   · have hsb : SameBook s sa := by
-      rcases hrep with h | ⟨_, _, _, h, _⟩
+      rcases hrep with ⟨h, _⟩ | ⟨_, _, _, h, _⟩
       · rw [h]; exact ⟨rfl, rfl, rfl⟩
       · exact h
-    rcases h with ⟨e, _, sb, res, ok, hsab, _, hres, hc⟩ | ⟨_, h | hc⟩
+    rcases h with ⟨e, _, sb, res, ok, hsab, _, ⟨hres, _⟩, hc⟩ | ⟨_, h | hc⟩
     · refine List.IsPrefix.trans ?_ (hc.ext m)
       have hnd : sb.nd m = s.nd m := by rw [hsab.nd, hsb.nd]
       by_cases hp : ph = .pre
@@ -2419,5 +2427,51 @@ theorem runDecision_true_stateful (g : Graph) (s : State) (n w : Nat) (s1 : Stat
   · right
     have := shouldRerun_true g s1 n w hr
     exact ⟨this.1, this.2.1⟩
+
+/-! ## the result filed is the one this execution reported -/
+
+theorem resume_files_own_result {g : Graph} (hwf : graphWF g = true) {s : State}
+    (b : Basic g s All) (u : Uids g s All) (w n : Nat) (dir : Dir) (uid : String) (tag : Nat)
+    (hpc : (s.wd w).pc = .test n .plain dir uid tag 0) (hg : good g n = true) (out : Outcome) (st : String)
+    (hst : out.status = some st) (fuel : Nat) (hf : 0 < fuel) :
+    ∃ res ∈ ((resume g s w out fuel).1.nd n).results, res.uid = uid ∧ res.dur = out.dur ∧
+      (res.status = st ∨ (st = "PASS" ∧ res.status = "WARN")) := by
+  have hws : w < s.workers.length := lt_of_isTest s w (by rw [hpc]; rfl)
+  have hok := b.pcOK w n .plain dir uid tag 0 trivial hpc
+  rcases resume_eff g hwf s w out fuel hf hws (b.paths w) with ⟨hnt, _⟩ | ⟨n', ph, dir', uid', tag', wait, hpc', sa, hrep, h⟩
+  · rw [hpc] at hnt; simp [Pc.isTest] at hnt
+  · rw [hpc] at hpc'
+    simp only [Pc.test.injEq] at hpc'
+    obtain ⟨hn, hph, hdir, huid, htag, hwait⟩ := hpc'
+    subst hn hph hdir huid htag hwait
+    simp only [reduceCtorEq, if_false] at hrep h
+    have hunrep := u.unreported w n dir uid tag 0 trivial hpc hg
+    rcases hrep with ⟨_, h0 | h0⟩ | ⟨_, st', hst', hsb, hj⟩
+    · exact absurd rfl h0
+    · rw [hst] at h0; cases h0
+    · rw [hst] at hst'; cases hst'
+      have hfind : sa.jobResults.find? (fun r => r.1 == (g.node n).name && r.2.1 == uid) = some ((g.node n).name, uid, st, out.dur) := by
+        rw [hj, List.find?_append]
+        have : s.jobResults.find? (fun r => r.1 == (g.node n).name && r.2.1 == uid) = none := by
+          rw [List.find?_eq_none]
+          intro x hx hp
+          simp only [Bool.and_eq_true, beq_iff_eq] at hp
+          apply hunrep
+          unfold keys
+          exact List.mem_map.mpr ⟨x, hx, by rw [hp.1, hp.2]⟩
+        rw [this]; simp
+      rcases h with ⟨e, he, sb, res, ok, hsab, _, ⟨hres, huid, hdur, hstat⟩, hc⟩ | ⟨hnone, _⟩
+      · rw [hfind] at he
+        cases he
+        refine ⟨res, ?_, huid, hdur, hstat⟩
+        refine (hc.ext n).subset ?_
+        have hns : n < sb.nodes.length := by rw [hsab.1, hsb.1, b.nodesLen]; exact hok.1
+        unfold settleNd
+        rw [nd_setNd_eq sb n _ hns]
+        refine List.mem_filter.mpr ⟨List.mem_append_right _ (List.mem_singleton.mpr rfl), ?_⟩
+        have := isPh_res_false res tag hres hok.2.1
+        unfold isPh at this
+        rw [this]; rfl
+      · rw [hfind] at hnone; cases hnone
 
 end I2N.Trav
